@@ -28,8 +28,8 @@ func init() {
 		Run:  c02Mode})
 	register(&Rule{ID: "C02.bounds", Floor: 14,
 		Text: "every slice expression on a node's content with a non-constant bound is safe: 0 <= bound (offset invariant: every store to the handle offset is provably non-negative; parameters are tested) and bound <= len, discharged by a dominating guard on the same symbolic expressions or by the ensure-length idiom (`d := e - len(x); if d > 0 { x = append(x, make([]T, d)...) }`) with no intervening store; truncate(size) is called only with a provably non-negative size",
-		Also: []string{"C07", "C01"},
-		Run:  c02Bounds})
+		Also: []string{"C07", "C01", "C04", "C11"}, AlsoOnly: map[string][]string{"C04": {"truncate"}, "C11": {"truncate"}}, AlsoFloor: map[string]int{"C04": 1, "C11": 1},
+		Run: c02Bounds})
 	register(&Rule{ID: "C02.append", Floor: 2,
 		Text: "a handle opened with O_APPEND positions each write at the current end: in Write, `f.at = len(content)` under the set branch of `openMode & OpenAppend`, inside the node's write-locked section, precedes every use of the offset for that write",
 		Run:  c02Append})
